@@ -16,7 +16,7 @@ STUBS = ["the power flow of each N-1 case is replaced by its contract: it fills 
          "islands the element) - both shapes are explored"]
 ASSUMPTIONS = ["loadings symbolic in [0,200] %, limits in [10,150] %, voltages in [0.8,1.2]", "all N-1 power flows converge (non-converged cases "
                "are skipped by run_contingency before aggregation: covered by the fault-schedule part)"]
-OUTSIDE = ["run_contingency_ls2g (compiled lightsim2grid)", "the power flows themselves", "tdpf temperature variable (same code path as loading)"]
+OUTSIDE = ["result values of run_contingency_ls2g (compiled lightsim2grid; its state restore is covered by C08)", "the power flows themselves", "tdpf temperature variable (same code path as loading)"]
 BOUNDS = {"quick": "3 lines, 1 bus; N-1 case lists of length 2 and 3 in 4 orders; own-outage entry 0.0 / NaN; the real run_contingency on 2 lines + trafo + trafo3w with overlapping indices, 2 case lists",
           "thorough": "all orders of all case subsets of 3 lines (15 lists) x own-outage shape {0.0, NaN} + trafo as second element type"}
 NAN = float("nan")
